@@ -1004,3 +1004,29 @@ def rule_output_always_created(ctx, rule, fv, who):
               "a path of %s ends normally without having opened its output for writing: an output left by an earlier "
               "run survives (or no file is produced) although a fresh location would receive this run's result" % who,
               line_of(bad) if bad is not None else None)
+
+
+
+def indexed_traversal(it):
+    """For the iterator term of a loop that visits every element of a sequence X in index order return
+    (X, index_term, is_elem) — `for (i, &x) in X.iter().enumerate()` or `for i in 0..X.len()` (+ X[i] / X.get(i))."""
+    item = ("item", it)
+    if it[0] == "call" and it[1].endswith("Iterator::enumerate") and len(it) == 3:
+        src = it[2]
+        if src[0] == "call" and src[1].split("::")[-1] in ("iter", "into_iter") and len(src) == 3:
+            src = src[2]
+        idx, el = ("proj", 0, item), ("proj", 1, item)
+        return src, idx, (lambda a, el=el: a == el)
+    if it[0] == "struct" and it[1].endswith("ops::Range"):
+        d = dict(it[2])
+        end = d.get("end", ("none",))
+        if d.get("start") == L(0) and end[0] == "call" and end[1].endswith("::len") and len(end) == 3:
+            X = end[2]
+
+            def is_elem(a, X=X, item=item):
+                if a == ("index", X, item):
+                    return True
+                return contains(a, lambda s_: s_[0] == "call" and s_[1].endswith("::get") and len(s_) == 4
+                                and s_[2] == X and s_[3] == item) and a[0] == "call" and a[1].endswith("unwrap")
+            return X, item, is_elem
+    return None, None, None
